@@ -68,6 +68,8 @@ def shapes(tier):
                     for st in steppers(2, dls=("abs",)):
                         if sum(1 for c in st if c["op"] == "until") > 1:
                             continue   # three actions under two step_until: minutes per shape
+                        if k3 == "periodic" and k1 != "once" and k2 != "once" and any(c["op"] == "until" for c in st):
+                            continue   # three periodic series under a step_until: > 40 min per shape
                         J.append(job([S(k1, 1), S(k2, 2, dl="rel", origin=1), S(k3, 3, origin=0)] + st, max_steps=3))
         for st in steppers(3, dls=("abs", "rel")):
             J.append(job([S("periodic", 1), S("once", 2, dl="rel")] + st, max_steps=4))
